@@ -537,7 +537,12 @@ impl Monitors {
                 }
             }
             Obs::Keys(ks) => {
-                if *ks != seg.pre.keys() {
+                // as sets (with multiplicity): the order of the returned Vec is not part of any property
+                let mut got = ks.clone();
+                got.sort();
+                let mut want = seg.pre.keys();
+                want.sort();
+                if got != want {
                     self.hit("C04.keys", format!("{}: keys {:?} but the map has {:?}", label.text(), ks, seg.pre.keys()));
                 }
             }
